@@ -256,6 +256,26 @@ def extract_converter(modname: str):
     return out
 
 
+def extract_cont_passes(modname: str):
+    """the calls `x = merge_delimiter_continued_lines(y, delimiter=…, remove_delimiter=…)` of a converter, in source
+    order: (assigned name, first argument, delimiter, remove flag)"""
+    src = (REPO / "cheetah" / "converters" / f"{modname}.py").read_text()
+    rows = []
+    for node in ast.walk(ast.parse(src)):
+        if isinstance(node, ast.Assign) and isinstance(node.value, ast.Call) and \
+                isinstance(node.value.func, ast.Name) and node.value.func.id == "merge_delimiter_continued_lines":
+            c = node.value
+            kw = {k.arg: k.value for k in c.keywords}
+            args = list(c.args)
+            first = ast.unparse(args[0]) if args else ast.unparse(kw.get("lines", ast.Constant(None)))
+            d = kw.get("delimiter", args[1] if len(args) > 1 else None)
+            rm = kw.get("remove_delimiter", args[2] if len(args) > 2 else ast.Constant(False))
+            rows.append((node.lineno, [ast.unparse(node.targets[0]), first,
+                                       d.value if isinstance(d, ast.Constant) else ast.unparse(d),
+                                       rm.value if isinstance(rm, ast.Constant) else ast.unparse(rm)]))
+    return [r for _, r in sorted(rows)]
+
+
 def element_types_of_test(test) -> list:
     """parsed['element_type'] == 'x'  /  in [..]"""
     def is_et(n):
@@ -324,6 +344,13 @@ def main() -> int:
             b = "[" + ", ".join(f"({lean_str(x['cls'])}, {lean_list(x['args'])})" for x in r["builds"]) + "]"
             rows.append(f"  ⟨{lean_str(d)}, {lean_list(r['types'])}, {lean_list(r['understood'])}, {b}⟩")
     L.append(",\n".join(rows))
+    L += ["]", "", "/-- the continuation-merging passes of each converter, in source order:",
+          "(dialect, [(assigned name, first argument, mark, remove flag)]) -/",
+          "def contPassesSrc : List (String × List (String × String × String × Bool)) := ["]
+    L.append(",\n".join(
+        f"  ({lean_str(d)}, [" + ", ".join(
+            f"({lean_str(t)}, {lean_str(a)}, {lean_str(str(m))}, {'true' if rm is True else 'false'})" for t, a, m, rm in extract_cont_passes(d))
+        + "])" for d in conv))
     L += ["]", "", "end Gen", ""]
     ch4 = write_if_changed(GEN / "ConverterTables.lean", "\n".join(L))
 
